@@ -90,7 +90,7 @@ func sli@@(x []int) string {
 
 func show(k kindSpec, v string) string { return fmt.Sprintf(k.show, v) }
 
-// genRangeKind: one point of the range-kinds matrix. The program prints two lines: the locals
+// genRangeKind: one point of the range-kinds matrix. The program prints two lines: the variables
 // after the loop, and the texts of the three values of the kind's table (so that the harness
 // knows how a value of the kind prints without evaluating Go).
 func genRangeKind(r *proto.Rand) *program {
@@ -99,26 +99,26 @@ func genRangeKind(r *proto.Rand) *program {
 	nk := 1 + r.Intn(3) // live locals of the element's kind
 	ni := r.Intn(4)     // int locals
 	nvals := r.Intn(4)  // values in the channel
+	if strictBias && r.Intn(2) == 0 {
+		form, k = 0, rangeKinds[4+r.Intn(len(rangeKinds)-4)]
+	}
 	var b strings.Builder
 	b.WriteString(formsHelpers)
-	b.WriteString("func @MAIN@() {\n")
-	// locals of the element's kind first, then the int locals, then the channel: the register
-	// numbers of each class follow the order of declaration
+	// the loop is in a function whose parameters are the live variables: nk of the element's kind,
+	// then ni ints, then the channel — parameters get the first registers of their class in the
+	// order of declaration, no temporaries in between
+	var params, args, parts []string
 	for j := 1; j <= nk; j++ {
-		fmt.Fprintf(&b, "\tk%d := %s\n", j, k.vals[(j-1)%3])
+		params = append(params, fmt.Sprintf("k%d %s", j, k.typ))
+		args = append(args, k.vals[(j-1)%3])
+		parts = append(parts, show(k, fmt.Sprintf("k%d", j)))
 	}
 	for j := 1; j <= ni; j++ {
-		fmt.Fprintf(&b, "\tn%d := %d\n", j, 100*j)
+		params = append(params, fmt.Sprintf("n%d int", j))
+		args = append(args, fmt.Sprint(100*j))
+		parts = append(parts, fmt.Sprintf("h.Itoa(n%d)", j))
 	}
-	fmt.Fprintf(&b, "\tc := make(chan %s, 3)\n", k.typ)
-	// the values are sent in reverse order of the table: the last one received differs from what
-	// most locals hold
-	last := -1
-	for j := 0; j < nvals; j++ {
-		last = (5 - j) % 3
-		fmt.Fprintf(&b, "\tc <- %s\n", k.vals[last])
-	}
-	b.WriteString("\tclose(c)\n")
+	fmt.Fprintf(&b, "func body@@(%s, c chan %s) {\n", strings.Join(params, ", "), k.typ)
 	switch form {
 	case 0:
 		b.WriteString("\tfor v := range c {\n\t\t_ = v\n")
@@ -131,19 +131,22 @@ func genRangeKind(r *proto.Rand) *program {
 		b.WriteString("\t\tn1++\n")
 	}
 	b.WriteString("\t}\n")
-	var parts []string
-	for j := 1; j <= nk; j++ {
-		parts = append(parts, show(k, fmt.Sprintf("k%d", j)))
+	fmt.Fprintf(&b, "\tprintln(%s)\n}\n\n", strings.Join(parts, ", "))
+	b.WriteString("func @MAIN@() {\n")
+	fmt.Fprintf(&b, "\tc := make(chan %s, 3)\n", k.typ)
+	// the values are sent in reverse order of the table: the last one received differs from what
+	// most locals hold
+	last := -1
+	for j := 0; j < nvals; j++ {
+		last = (5 - j) % 3
+		fmt.Fprintf(&b, "\tc <- %s\n", k.vals[last])
 	}
-	for j := 1; j <= ni; j++ {
-		parts = append(parts, fmt.Sprintf("h.Itoa(n%d)", j))
-	}
-	fmt.Fprintf(&b, "\tprintln(%s)\n", strings.Join(parts, ", "))
+	fmt.Fprintf(&b, "\tclose(c)\n\tbody@@(%s, c)\n", strings.Join(args, ", "))
 	fmt.Fprintf(&b, "\tt0, t1, t2 := %s, %s, %s\n\tprintln(%s, %s, %s)\n}\n", k.vals[0], k.vals[1], k.vals[2], show(k, "t0"), show(k, "t1"), show(k, "t2"))
 	p := &program{N: 4, M: 2, raw: b.String(), shapes: []string{"forms:range-kinds", "forms:range-kinds:" + k.class + []string{":decl", ":assign", ":novar"}[form]}}
 	// the prediction: with `:=` the loop variable gets int register ni+1; the elements are stored
-	// into register ni+1 of the element's class, which holds the local declared (ni+1)-th in that
-	// class (the channel variable, a general register, is declared after the nk locals)
+	// into register ni+1 of the element's class, which holds the parameter declared (ni+1)-th in
+	// that class (the channel, a general register, is declared after the nk of the kind)
 	if form == 0 && k.class != "int" && nvals > 0 && ni+1 <= nk {
 		p.predict = &prediction{id: "range-chan-declared-var-int-register", effect: "output-with"}
 		p.rangeTarget, p.rangeLast = ni+1, last
@@ -309,6 +312,9 @@ func genSelectBreak(r *proto.Rand) *program {
 	}
 	return p
 }
+
+// strictBias (VERIF_C14_STRICT=1): the generators draw more often around the recorded defects.
+var strictBias bool
 
 func genForms(r *proto.Rand) *program {
 	switch r.Intn(5) {
